@@ -116,7 +116,19 @@ fn run_sweep(ctx: &Ctx) -> CheckResult {
         let mut off = 0u64;
         while off < SHARD {
             let base = (start + off) as u32;
-            api.len_sweep(base, &mut buf);
+            if crate::ctx::catch(|| api.len_sweep(base, &mut buf)).is_err() {
+                // an encoding call panicked somewhere in this chunk: locate the first such length
+                for i in 0..CHUNK as u32 {
+                    let n = base.wrapping_add(i);
+                    if !matches!(crate::ctx::catch(|| case_len(api, n, &ranges)), Ok(Ok(()))) {
+                        o.bad = Some(n);
+                        break;
+                    }
+                }
+                o.bad = o.bad.or(Some(base));
+                o.last = 0;
+                return o;
+            }
             for (i, &r) in buf.iter().enumerate() {
                 let n = base.wrapping_add(i as u32);
                 let mut ok = r & 0x600 == 0;
@@ -157,7 +169,11 @@ fn run_sweep(ctx: &Ctx) -> CheckResult {
     }
     ctx.subcheck("sweep", 1u64 << 32);
     let fail = |n: u32| -> CheckResult {
-        let m = case_len(api, n, &ranges).err().unwrap_or_else(|| format!("length {} violates monotonicity/None-consistency with its predecessor", n));
+        let m = match crate::ctx::catch(|| case_len(api, n, &ranges)) {
+            Ok(r) => r.err(),
+            Err(p) => Some(format!("encoding length {} panicked: {}", n, p)),
+        }
+        .unwrap_or_else(|| format!("length {} violates monotonicity/None-consistency with its predecessor", n));
         Err(ctx.violation("sweep", m, json!({ "n": n })))
     };
     for o in &outs {
